@@ -19,9 +19,11 @@ import Nstd.Future.Handshake
                           `stepFrame` (repaired code = the current source) are the translated bodies.
     constructors          `queue_ctor_is_ring_init`, `queue_ctor_capacity_upto_1024` (bounded: see OPEN), `pool_ctor_is_mkPool`,
                           `lazy_pool_is_default_ctor`.
-    run()                 `run_counters_are_translated`, `run_branch_is_translated`, `run_spawn_limit_is_translated`,
-                          `run_retire_clock_is_translated` : the counter arithmetic and every condition of the if-chain of
-                          `ThreadPool::run` (which branch is taken from the values read) are the translated expressions.
+    run()                 `run_decision_is_translated` : the branch the model takes after the two counter reads is the decision TREE the
+                          translator obtains from the current source by symbolic execution (counter arithmetic with the source's
+                          `usize`/`ssize` wrap-around, every condition, early returns or nested ifs alike), for all counters < 2^62;
+                          `run_clock_cond_is_translated`, `run_clock_frames_do_what_the_tree_says`, `run_counters_are_translated`.
+                          The effect statements (mutex, purge, Thread::start, terminate job) are opaque to the translator.
     Future.hpp            `join_is_translated`, `join_clear_is_translated`, `abort_is_translated`, `flags_are_translated`,
                           `destructor_is_translated`, `set_is_translated` (Future<void>::set of Future.cpp), `result_conversion_is_translated`,
                           `proc_order_is_translated`, `fut_ctor_is_default`, `state_enum_is_translated`; `flags_after_join_translated`:
@@ -290,42 +292,80 @@ theorem pool_ctor_is_mkPool (q mn mx : Nat) : mkPool q mn mx = poolCtor mn mx q 
 theorem lazy_pool_is_default_ctor : mkPool 0x100 0 4 = poolCtorDefault 4 := by
   simp only [poolCtorDefault, pool_ctor_is_mkPool]
 
-/-! ## `ThreadPool::run`: counters and the conditions of the if-chain -/
+/-! ## `ThreadPool::run`: the worker-count decision -/
 
+theorem ite_eq_of_pos {α : Type} {c : Prop} [Decidable c] {a b x : α} (hc : c) (h : a = x) : (if c then a else b) = x := by
+  rw [if_pos hc]; exact h
+theorem ite_eq_of_neg {α : Type} {c : Prop} [Decidable c] {a b x : α} (hc : ¬ c) (h : b = x) : (if c then a else b) = x := by
+  rw [if_neg hc]; exact h
+
+/-- evaluates the translated decision tree in a context that fixes the model's branch: every condition of the tree (whatever its
+    syntactic form: `<= 0` or `< 1`, signed or wrapped unsigned intermediate values, nested or early-return shape) is decided by `omega`
+    from the bounds and the model's condition -/
+macro "run_tree_tac" : tactic => `(tactic| (
+  simp only [runTree, wrapU, toS]
+  repeat' (first
+    | (refine ite_eq_of_pos (by (try simp only [U64, S63]); omega) ?_)
+    | (refine ite_eq_of_neg (by (try simp only [U64, S63]); omega) ?_)
+    | rfl)))
+
+/-- **`run_decision_is_translated`** — the branch the model takes after `run()` has read `_processedJobs` and `_threadCount`
+    (`runRdTc` with the busy count the model computed from the two values read before) IS the decision tree obtained from the current
+    source by symbolic execution, with the source's own `usize`/`ssize` wrap-around arithmetic, for all counter values below 2^62. -/
+theorem run_decision_is_translated (s : State) (t : Tid) (th : Thread) (pj processed : Nat) (p : Pool) (hp : s.pool = some p)
+    (h1 : pj < 4611686018427387904) (h2 : processed < 4611686018427387904) (h3 : p.threadCount < 4611686018427387904)
+    (h4 : p.minT < 4611686018427387904) (h5 : p.maxT < 4611686018427387904) :
+    ∃ fs, (stepFrame s t th (.runRdTc ((pj : Int) - processed))).1 = setThread s t (th.cont fs) ∧
+      ((fs = [.runClk1] ∧ runTree pj processed p.threadCount p.minT p.maxT = .done [.clockStore]) ∨
+       (fs = [.runClk2 p.threadCount] ∧ runTree pj processed p.threadCount p.minT p.maxT =
+          (if p.threadCount < p.maxT then .done [.clockStore, .spawn] else .done [.clockStore])) ∨
+       (fs = [.runClk3] ∧ runTree pj processed p.threadCount p.minT p.maxT = .clock (.done [.retire]) (.done [])) ∨
+       (fs = [] ∧ runTree pj processed p.threadCount p.minT p.maxT = .done [])) := by
+  simp only [stepFrame, hp]
+  by_cases c1 : (p.threadCount : Int) - ((pj : Int) - processed) = 1
+  · refine ⟨[.runClk1], by simp [c1], Or.inl ⟨rfl, ?_⟩⟩
+    run_tree_tac
+  · by_cases c2 : (p.threadCount : Int) - ((pj : Int) - processed) ≤ 0
+    · refine ⟨[.runClk2 p.threadCount], by simp [c1, c2], Or.inr (Or.inl ⟨rfl, ?_⟩)⟩
+      by_cases c3 : p.threadCount < p.maxT
+      · rw [if_pos c3]; run_tree_tac
+      · rw [if_neg c3]; run_tree_tac
+    · by_cases c3 : (p.threadCount : Int) - ((pj : Int) - processed) > 1 ∧ p.threadCount > p.minT
+      · refine ⟨[.runClk3], by simp [c1, c2, c3], Or.inr (Or.inr (Or.inl ⟨rfl, ?_⟩))⟩
+        run_tree_tac
+      · refine ⟨[], by simp [c1, c2, c3], Or.inr (Or.inr (Or.inr ⟨rfl, ?_⟩))⟩
+        run_tree_tac
+
+/-- the clock comparison of the source is the model's `now - _idleResetTime > 1` -/
+theorem run_clock_cond_is_translated (now r : Nat) : runClockCond now r ↔ now - r > 1 := by
+  unfold runClockCond; omega
+
+/-- the three clock frames do what `frameOutcome` says: store the clock / compare it, then spawn path, retire path or return -/
+theorem run_clock_frames_do_what_the_tree_says (s : State) (t : Tid) (th : Thread) (tc : Nat) (p : Pool) (hp : s.pool = some p) :
+    ((stepFrame s t th .runClk1).1.threads t = some (th.cont []) ∧
+      (stepFrame s t th .runClk1).1.pool = some { p with idleReset := clockMs s / 1024 }) ∧
+    ((stepFrame s t th (.runClk2 tc)).1.threads t = some (th.cont (if tc < p.maxT then [.runSpLock] else [])) ∧
+      (stepFrame s t th (.runClk2 tc)).1.pool = some { p with idleReset := clockMs s / 1024 }) ∧
+    ((stepFrame s t th .runClk3).1.threads t =
+        some (th.cont (if runClockCond (clockMs s / 1024) p.idleReset then [.runRetLock] else [])) ∧
+      (stepFrame s t th .runClk3).1.pool = some p) := by
+  refine ⟨⟨?_, ?_⟩, ⟨?_, ?_⟩, ⟨?_, ?_⟩⟩
+  · simp [stepFrame, hp, setThread, setPool, upd]
+  · simp [stepFrame, hp, setThread, setPool, upd]
+  · by_cases h : tc < p.maxT <;> simp [stepFrame, hp, h, setThread, setPool, upd]
+  · by_cases h : tc < p.maxT <;> simp [stepFrame, hp, h, setThread, setPool, upd]
+  · have e := run_clock_cond_is_translated (clockMs s / 1024) p.idleReset
+    by_cases h : clockMs s / 1024 - p.idleReset > 1
+    · have h' := e.mpr h
+      simp [stepFrame, hp, h, h', setThread, upd]
+    · have h' := mt e.mp h
+      simp [stepFrame, hp, h, h', setThread, upd]
+  · by_cases h : clockMs s / 1024 - p.idleReset > 1 <;> simp [stepFrame, hp, h, setThread, upd]
+
+/-- the first of the two reads: the model's busy count is `pushedJobs - _processedJobs` as a signed number -/
 theorem run_counters_are_translated (s : State) (t : Tid) (th : Thread) (pj : Nat) (p : Pool) (hp : s.pool = some p) :
-    (stepFrame s t th (.runRdProc pj)).1 = setThread s t (th.cont [.runRdTc (runBusy pj p.processed)]) := by
-  simp [stepFrame, hp, runBusy]
-
-/-- which branch `run()` takes after reading `_threadCount` is decided by the translated conditions, in source order -/
-theorem run_branch_is_translated (s : State) (t : Tid) (th : Thread) (busy : Int) (p : Pool) (hp : s.pool = some p) :
-    (stepFrame s t th (.runRdTc busy)).1 =
-      setThread s t (th.cont
-        (if runCondOne (runIdle p.threadCount busy) then [.runClk1]
-         else if runCondSpawn (runIdle p.threadCount busy) then [.runClk2 p.threadCount]
-         else if runCondRetire (runIdle p.threadCount busy) p.threadCount p.minT then [.runClk3]
-         else [])) := by
-  have e1 : ((1 : Nat) : Int) = 1 := rfl
-  have e0 : ((0 : Nat) : Int) = 0 := rfl
-  simp only [stepFrame, hp, runCondOne, runCondSpawn, runCondRetire, runIdle, e1, e0]
-  by_cases h1 : (p.threadCount : Int) - busy = 1
-  · simp [h1]
-  · by_cases h2 : (p.threadCount : Int) - busy ≤ 0
-    · simp [h1, h2]
-    · by_cases h3 : (p.threadCount : Int) - busy > 1 ∧ p.threadCount > p.minT
-      · simp [h1, h2, h3]
-      · simp [h1, h2, h3]
-
-theorem run_spawn_limit_is_translated (s : State) (t : Tid) (th : Thread) (tc : Nat) (p : Pool) (hp : s.pool = some p) :
-    ((stepFrame s t th (.runClk2 tc)).1.threads t) =
-      some (th.cont (if runCondBelowMax tc p.maxT then [.runSpLock] else [])) := by
-  simp only [stepFrame, hp, runCondBelowMax]
-  by_cases h : tc < p.maxT <;> simp [h, setThread, upd]
-
-theorem run_retire_clock_is_translated (s : State) (t : Tid) (th : Thread) (p : Pool) (hp : s.pool = some p) :
-    ((stepFrame s t th .runClk3).1.threads t) =
-      some (th.cont (if runCondRetireClock (clockMs s / 1024) p.idleReset then [.runRetLock] else [])) := by
-  simp only [stepFrame, hp, runCondRetireClock]
-  by_cases h : clockMs s / 1024 - p.idleReset > 1 <;> simp [h, setThread, upd]
+    (stepFrame s t th (.runRdProc pj)).1 = setThread s t (th.cont [.runRdTc ((pj : Int) - p.processed)]) := by
+  simp [stepFrame, hp]
 
 /-! ## Future.hpp: `Future<void>` members, `Future<void>::set`, `Future<A>` conversion / destructor, the two `proc` templates -/
 
